@@ -148,6 +148,7 @@ REPLAY = {f"{WS}._get_data": "bnd_c20.py", **REPLAY_EXTRA}
 # =================================================================================================
 def register_lifecycle(reg):
     from .c_schedule import st
+    register_merger_guards(reg)
     COMP = "finam.sdk.component.Component"
     reg.field("$hook_status", sv.Int)      # ghost: the status the component had when its hook returned
     reg.field("frozen", sv.Bool)
@@ -177,3 +178,136 @@ def register_lifecycle(reg):
     # (initialize additionally freezes the slot lists: IOList is not modelled; its status logic is the same pattern as validate)
     wrapper("validate", "VALIDATED", ("FAILED",), ("CONNECTED",))
     wrapper("update", "UPDATED", ("FAILED", "FINISHED"), ("VALIDATED", "UPDATED"))
+
+
+    # ------------------------------------------------------------------ finalize / connect wrappers (C03.1, C06)
+    reg.field("$slot_log", TList(TRef(None)))    # ghost: slots whose ping() / finalize() the wrappers called, in order
+    LOG = "$slot_log"
+
+    def logged(ctx, obj):
+        f0, f1 = ctx.old.get(WORLD, LOG), ctx.get(WORLD, LOG)
+        i = z3.Int(sv.uid("sl"))
+        return And(f1.n == f0.n + 1, f1.at(f0.n).e == obj, z3.ForAll([i], Implies(And(0 <= i, i < f0.n), f1.at(i).e == f0.at(i).e)))
+
+    slot_mod = lambda ctx: [(None, f) for f in RETENTION_FIELDS + ["_connected_inputs"]] + [(WORLD, LOG), (WORLD, "$pinged")]
+    reg.add(Contract("iface:IInput.ping", params={}, note="method", verify=False, modifies=slot_mod,
+                     ensures=lambda ctx, r: logged(ctx, ctx.self.e)))
+    reg.add(Contract("iface:IOutput.finalize", params={}, note="method", verify=False, modifies=slot_mod,
+                     ensures=lambda ctx, r: logged(ctx, ctx.self.e)))
+    for prop_name, fld in (("inputs", "Component._inputs"), ("outputs", "Component._outputs")):
+        reg.add(Contract(f"{COMP}.{prop_name}", self_cls="Component", pure=True, verify=False,
+                         result_fn=lambda ctx, fld=fld: ctx.get(ctx.self, fld)))
+    for hook in ("_finalize", "_connect"):
+        def hpost(ctx, r):
+            return hooked(ctx) == status(ctx)
+        reg.add(Contract(f"iface:Component.{hook}", params=({"start_time": TimeOpt} if hook == "_connect" else {}), note="method",
+                         verify=False, modifies=lambda ctx: [(ctx.self, SF), (ctx.self, "$hook_status"), (ctx.self, "$hook_arg")], ensures=hpost
+                         if hook == "_finalize" else (lambda ctx, r: And(hooked(ctx) == status(ctx),
+                                                                         sv.value_eq(ctx.get(ctx.self, "$hook_arg"), ctx.start_time)))))
+    reg.field("$hook_arg", TimeOpt)              # ghost: the start time the _connect hook was called with
+
+    def each_logged(ctx, slots, upto):
+        """the first `upto` slots (in map order) were logged by this call, in order, and nothing else"""
+        l0, l1 = ctx.old.get(WORLD, LOG), ctx.get(WORLD, LOG)
+        i, j = z3.Int(sv.uid("el")), z3.Int(sv.uid("ek"))
+        return And(l1.n == l0.n + upto,
+                   z3.ForAll([i], Implies(And(0 <= i, i < l0.n), l1.at(i).e == l0.at(i).e)),
+                   z3.ForAll([j], Implies(And(0 <= j, j < upto), l1.at(l0.n + j).e == slots.val(slots.keys.at(j).e).e)))
+
+    def fin_post(ctx, r):
+        h = hooked(ctx)
+        outs = ctx.old.get(ctx.self, "Component._outputs")
+        return {"ends FINALIZED unless the hook reported FAILED": status(ctx) == If(h == st("FAILED"), h, st("FINALIZED")),
+                "every output of the component is finalized exactly once, in order": each_logged(ctx, outs, outs.keys.n)}
+
+    reg.add(Contract(f"{COMP}.finalize", self_cls="Component", props=["C03.1", "C03.3", "C10.4"], params={}, ensures=fin_post, modifies=None,
+                     requires=lambda ctx: Or(*[status(ctx) == st(p) for p in ("VALIDATED", "UPDATED", "FINISHED")]),
+                     loops={1: dict(invariant=lambda ctx: And(each_logged(ctx, ctx.old.get(ctx.self, "Component._outputs"), ctx.k),
+                                                               status(ctx) == hooked(ctx)))},
+                     virtual=["_finalize"], name="finalize<Component>", primary=False))
+
+    def con_post(ctx, r):
+        s0 = ctx.old.get(ctx.self, SF).e
+        ins = ctx.old.get(ctx.self, "Component._inputs")
+        first = s0 == st("INITIALIZED")
+        return {"first call (INITIALIZED): every input is pinged once, in order; the component is CONNECTING; the hook is not called":
+                Implies(first, And(each_logged(ctx, ins, ins.keys.n), status(ctx) == st("CONNECTING"),
+                                   ctx.get(ctx.self, "$hook_status").e == ctx.old.get(ctx.self, "$hook_status").e)),
+                "later calls: the hook decides the status and receives the composition start time; no slot is touched":
+                Implies(Not(first), And(status(ctx) == hooked(ctx), sv.value_eq(ctx.get(ctx.self, "$hook_arg"), ctx.start_time),
+                                        each_logged(ctx, ins, 0)))}
+
+    reg.add(Contract(f"{COMP}.connect", self_cls="Component", props=["C06.1", "C03.1"], params={"start_time": TimeOpt}, ensures=con_post,
+                     modifies=None,
+                     requires=lambda ctx: Or(*[status(ctx) == st(p) for p in ("INITIALIZED", "CONNECTING", "CONNECTING_IDLE")]),
+                     loops={1: dict(invariant=lambda ctx: And(each_logged(ctx, ctx.old.get(ctx.self, "Component._inputs"), ctx.k),
+                                                               status(ctx) == ctx.old.get(ctx.self, SF).e,
+                                                               ctx.get(ctx.self, "$hook_status").e == ctx.old.get(ctx.self, "$hook_status").e))},
+                     raises={"FinamTimeError": lambda ctx: z3.BoolVal(False)},
+                     virtual=["_connect"], name="connect<Component>", primary=False))
+
+    reg.add(Contract(f"{COMP}.initialize", self_cls="Component", props=["C03.1", "C06.1"], params={}, modifies=None,
+                     ensures=lambda ctx, r: {"ends INITIALIZED unless the hook reported FAILED":
+                                             status(ctx) == If(hooked(ctx) == st("FAILED"), hooked(ctx), st("INITIALIZED"))},
+                     requires=lambda ctx: status(ctx) == st("CREATED"),
+                     virtual=["_initialize"], dropped_attrs=["frozen"], name="initialize<Component>", primary=False))
+
+
+
+# =================================================================================================
+# WeightedSum._check_grid / _compatible_units (C20.4): only inputs on the *same* grid (cells stored in the same layout) and with
+# compatible units are merged - the sum is taken element by element
+# =================================================================================================
+def register_merger_guards(reg):
+    from .c_info import GridT, UnitsT, GEQ, UC, ref_or0, obj_or, NOMASK, grid_of, units_of
+    reg.field("_grid", GridT, "WeightedSum")
+    reg.field("_units", UnitsT, "WeightedSum")
+    G, U = "WeightedSum._grid", "WeightedSum._units"
+
+    def g_bad(ctx):
+        g0 = ctx.get(ctx.self, G)
+        return And(Not(is_none(g0)), Not(GEQ(ref_or0(g0), ref_or0(grid_of(ctx, ctx.info)))))
+
+    reg.add(Contract(
+        f"{WS}._check_grid", self_cls="WeightedSum", props=["C20.4"], params={"info": TRef("Info")},
+        requires=lambda ctx: And(ctx.info.e > 0, Not(is_none(grid_of(ctx, ctx.info)))),
+        ensures=lambda ctx, r: {"the first grid is remembered, later ones are equal to it (same cells in the same layout)":
+                                And(Not(is_none(ctx.get(ctx.self, G))),
+                                    If(is_none(ctx.old.get(ctx.self, G)), ref_or0(ctx.get(ctx.self, G)) == ref_or0(grid_of(ctx, ctx.info)),
+                                       And(ref_or0(ctx.get(ctx.self, G)) == ref_or0(ctx.old.get(ctx.self, G)),
+                                           GEQ(ref_or0(ctx.get(ctx.self, G)), ref_or0(grid_of(ctx, ctx.info))))))},
+        modifies=lambda ctx: [(ctx.self, G)], raises={"FinamMetaDataError": g_bad}, must_raise={"FinamMetaDataError": g_bad},
+        raise_frame_empty=True, tags=["grid-eq-relation"], name="_check_grid<WeightedSum>",
+    ))
+
+    def u_bad(ctx):
+        u0 = ctx.get(ctx.self, U)
+        return And(Not(is_none(u0)), Not(UC(obj_or(u0, NOMASK), obj_or(units_of(ctx, ctx.info), NOMASK))))
+
+    reg.add(Contract(
+        f"{WS}._compatible_units", self_cls="WeightedSum", props=["C20.4", "C17.5"], params={"info": TRef("Info")},
+        requires=lambda ctx: And(ctx.info.e > 0, ctx.get(ctx.info, "meta").dom(sv.const_str("units").e), Not(is_none(units_of(ctx, ctx.info)))),
+        ensures=lambda ctx, r: {"the first units are remembered, later ones are compatible with them":
+                                And(Not(is_none(ctx.get(ctx.self, U))),
+                                    If(is_none(ctx.old.get(ctx.self, U)), obj_or(ctx.get(ctx.self, U), NOMASK) == obj_or(units_of(ctx, ctx.info), NOMASK),
+                                       obj_or(ctx.get(ctx.self, U), NOMASK) == obj_or(ctx.old.get(ctx.self, U), NOMASK)))},
+        modifies=lambda ctx: [(ctx.self, U)], raises={"FinamMetaDataError": u_bad}, must_raise={"FinamMetaDataError": u_bad},
+        raise_frame_empty=True, name="_compatible_units<WeightedSum>",
+    ))
+
+
+def install(ex):
+    from .c_info import GEQ
+
+    def grid_eq(ex, a, b, path, node):
+        c = ex.cur_contract
+        if c is not None and "grid-eq-relation" in c.tags:
+            if isinstance(a, sv.SUnion):
+                a = ex.expect(a, sv.SRef, path, node, what="none")
+            if isinstance(b, sv.SUnion):
+                b = ex.expect(b, sv.SRef, path, node, what="none")
+            if isinstance(a, sv.SRef) and isinstance(b, sv.SRef):
+                return GEQ(a.e, b.e)
+        return None
+
+    ex.hooks.setdefault("eq", []).insert(0, grid_eq)
